@@ -18,7 +18,7 @@ def run(ctx):
     pb, eb = (2, 0) if q else (2, 1)
     # variant 1 (lazy creation of the default pool: 512 volatile writes of the queue constructor are scheduling points) and
     # variant 2 (one-slot queue) have several hundred choice points per execution: one preemption (two in the thorough tier for 2)
-    bounds = {0: pb, 1: 1 if q else 2, 2: pb, 3: pb, 4: pb, 5: pb, 6: pb, 7: pb}
+    bounds = {0: pb, 1: 1, 2: pb, 3: pb, 4: pb, 5: pb, 6: pb, 7: pb} if q else {0: 3, 1: 2, 2: 3, 3: 3, 4: 3, 5: 3, 6: 3, 7: 3}
     jobs = []
     for v in sorted(bounds):
         jobs += SL.job(b, "future", v, bounds[v], eb, extra=["--horizon", "20000", "--spurious", "0", "--delay-bounded", "1"], shards=16)
